@@ -986,7 +986,8 @@ class BannerHandler(Handler):
         assert fileid.suffix == EXT_FOR_PAGE
 
         for target in targets:
-            if page.fileid.match(target):
+            # An empty pattern matches no page (PurePath.match refuses it with ValueError)
+            if target and page.fileid.match(target):
                 return True
         return False
 
@@ -1484,7 +1485,16 @@ class IAHandler(Handler):
                 )
                 continue
 
-            parsed = urllib.parse.urlparse(entry.options.get("url"))
+            try:
+                parsed = urllib.parse.urlparse(entry.options.get("url"))
+            except ValueError as err:
+                # e.g. "http://[foo": brackets that do not hold an IPv6 address
+                self.context.diagnostics[fileid_stack.current].append(
+                    InvalidIAEntry(
+                        f"IA entry :url: is not a valid URL: {err}", node.span[0]
+                    )
+                )
+                continue
             if parsed.scheme:
                 url = entry.options.get("url")
                 slug = None
